@@ -748,6 +748,12 @@ pub fn run(ctx: &Ctx) -> Report {
             break;
         }
     }
+    // the system-cell family (two child processes; first worker)
+    if report.cap_hit.is_none() && report.machinery_errors.is_empty() && ctx.shard == 0 {
+        if let Err(e) = system_cell_family(ctx, &mut report) {
+            report.machinery_errors.push(format!("system-cell family: {e}"));
+        }
+    }
     // the maturity family (one worker)
     if report.cap_hit.is_none() && report.machinery_errors.is_empty() && maturity_worker {
         for d in nodes.n.drain(..) {
@@ -774,4 +780,158 @@ pub fn run(ctx: &Ctx) -> Report {
         }
     }
     report
+}
+
+// ---------------------------------------------------------------------------------------
+// System-cell family.  `ckb run` resolves the genesis system cells (three code / data cells of
+// genesis transaction 0, two dep groups of transaction 1) once and keeps them in a process-wide
+// cache that answers for them without asking the cell provider.  Two child processes run the
+// same node on the same world (genesis shaped the way the cache expects, every system cell
+// unspendable): one calls `setup_system_cell_cache` exactly as `ckb run` does, the other never
+// does.  Every system cell is referenced as a cell dep with each dep type - by a transaction
+// judged by the pool (`test_accept_tx`) and by a block that commits it - and the two processes
+// must give the same verdicts; the cache-less process must in addition give the verdicts known by
+// construction (a code / data cell named as a dep group is refused, everything else accepted).
+
+fn syscell_world() -> Consensus {
+    let mut w = WorldOpts::default();
+    w.system_cells = true;
+    consensus(&w)
+}
+
+/// (name, out point, dep type, valid by construction)
+fn syscell_candidates(cons: &Consensus) -> Vec<(String, TransactionView, bool)> {
+    use ckb_types::core::DepType;
+    let g = cons.genesis_block();
+    let t0 = g.transactions()[0].hash();
+    let t1 = g.transactions()[1].hash();
+    let cells = genesis_cells(cons);
+    let refs: Vec<(&str, packed::OutPoint, DepType, bool)> = vec![
+        ("code2-as-code", packed::OutPoint::new(t0.clone(), 1), DepType::Code, true),
+        ("code2-as-group", packed::OutPoint::new(t0.clone(), 1), DepType::DepGroup, false),
+        ("data2-as-group", packed::OutPoint::new(t0.clone(), 2), DepType::DepGroup, false),
+        ("data3-as-group", packed::OutPoint::new(t0.clone(), 3), DepType::DepGroup, false),
+        ("group0-as-code", packed::OutPoint::new(t1.clone(), 0), DepType::Code, true),
+        ("group0-as-group", packed::OutPoint::new(t1.clone(), 0), DepType::DepGroup, true),
+        ("group1-as-code", packed::OutPoint::new(t1.clone(), 1), DepType::Code, true),
+        ("group1-as-group", packed::OutPoint::new(t1.clone(), 1), DepType::DepGroup, true),
+    ];
+    refs.into_iter()
+        .enumerate()
+        .map(|(i, (name, op, dt, ok))| {
+            let base = simple_tx(cons, &cells[i..i + 1], 1, 1_000_000, 200 + i as u8);
+            let dep = packed::CellDep::new_builder().out_point(op).dep_type(dt).build();
+            (name.to_string(), base.as_advanced_builder().cell_dep(dep).build(), ok)
+        })
+        .collect()
+}
+
+/// child: `ckbmc syscellrun <dir> <0|1>` prints one line `VERDICTS <json>`
+pub fn syscellrun_main(args: &[String]) -> i32 {
+    let dir = std::path::Path::new(&args[0]);
+    let setup = args[1] == "1";
+    let cons = syscell_world();
+    set_time(time_for_height(20));
+    let go = || -> Result<Value, String> {
+        let mut opts = NodeOpts::new(cons.clone()).with_pool();
+        opts.tx_pool_config = Some(pool_config());
+        let node = Node::boot(dir, &opts)?;
+        node.wait_startup()?;
+        if setup {
+            ckb_types::core::cell::setup_system_cell_cache(node.shared.consensus().genesis_block(), node.shared.snapshot().as_ref()).map_err(|_| "SYSTEM_CELL cache was already set".to_string())?;
+        }
+        let cands = syscell_candidates(&cons);
+        let mut out = serde_json::Map::new();
+        // pool path
+        for (name, tx, _) in &cands {
+            let r = node.shared.tx_pool_controller().test_accept_tx(tx.clone()).map_err(|e| e.to_string())?;
+            out.insert(format!("pool/{name}"), json!(match r {
+                Ok(c) => format!("accepted cycles={}", c.cycles),
+                Err(e) => format!("rejected {}", err_class(&e.to_string())),
+            }));
+        }
+        // block path: b1 proposes every id, b2 is empty, then one sibling b3 per candidate commits it
+        // (assembled around a twin without the extra dep: inputs and outputs, hence DAO field and
+        // fees, are the same)
+        let ids: Vec<packed::ProposalShortId> = cands.iter().map(|c| c.1.proposal_short_id()).collect();
+        let snap = std::sync::Arc::clone(&node.shared.snapshot());
+        let b1 = crate::forge::assemble(&snap, &crate::forge::BlockSpec { miner: 1, proposals: ids, ..Default::default() })?;
+        node.process(&b1).map_err(|e| format!("b1 refused: {e}"))?;
+        let snap = std::sync::Arc::clone(&node.shared.snapshot());
+        let b2 = crate::forge::assemble(&snap, &crate::forge::BlockSpec { miner: 1, ..Default::default() })?;
+        node.process(&b2).map_err(|e| format!("b2 refused: {e}"))?;
+        let snap = std::sync::Arc::clone(&node.shared.snapshot());
+        let cells = genesis_cells(&cons);
+        for (i, (name, tx, _)) in cands.iter().enumerate() {
+            let twin = simple_tx(&cons, &cells[i..i + 1], 1, 1_000_000, 200 + i as u8);
+            let b3 = crate::forge::assemble(&snap, &crate::forge::BlockSpec { miner: 2, txs: vec![twin], ts_offset: i as u64 + 1, ..Default::default() })?;
+            let cellbase = b3.transactions()[0].clone();
+            let b3 = b3.as_advanced_builder().set_transactions(vec![cellbase, tx.clone()]).build();
+            let r = node.process(&b3);
+            out.insert(format!("block/{name}"), json!(match r {
+                Ok(v) => format!("accepted {v}"),
+                Err(e) => format!("rejected {}", err_class(&e.to_string())),
+            }));
+            // back to b2 for the next sibling
+            if node.tip().hash() != b2.hash() {
+                node.chain().truncate(b2.hash()).map_err(|e| format!("truncate: {e}"))?;
+            }
+        }
+        Ok(Value::Object(out))
+    };
+    match go() {
+        Ok(v) => {
+            println!("VERDICTS {v}");
+            use std::io::Write;
+            let _ = std::io::stdout().flush();
+            unsafe extern "C" {
+                fn _exit(code: i32) -> !;
+            }
+            unsafe { _exit(0) }
+        }
+        Err(e) => {
+            eprintln!("syscellrun: {e}");
+            3
+        }
+    }
+}
+
+fn system_cell_family(ctx: &Ctx, report: &mut Report) -> Result<(), String> {
+    let exe = std::env::current_exe().map_err(|e| e.to_string())?;
+    let mut outs: Vec<serde_json::Map<String, Value>> = vec![];
+    for setup in ["0", "1"] {
+        let dir = ctx.scratch.join(format!("syscell-{setup}"));
+        let _ = std::fs::remove_dir_all(&dir);
+        let out = std::process::Command::new(&exe).arg("syscellrun").arg(&dir).arg(setup).output().map_err(|e| e.to_string())?;
+        let so = String::from_utf8_lossy(&out.stdout).to_string();
+        let line = so.lines().find_map(|l| l.strip_prefix("VERDICTS ")).ok_or_else(|| format!("child (cache={setup}) gave no verdicts: exit {:?}: {}", out.status.code(), String::from_utf8_lossy(&out.stderr).lines().rev().take(5).collect::<Vec<_>>().join(" | ")))?;
+        let v: Value = serde_json::from_str(line).map_err(|e| e.to_string())?;
+        outs.push(v.as_object().cloned().ok_or("verdicts are not an object")?);
+        let _ = std::fs::remove_dir_all(&dir);
+    }
+    let cons = syscell_world();
+    let expect: BTreeMap<String, bool> = syscell_candidates(&cons).into_iter().map(|(n, _, ok)| (n, ok)).collect();
+    let (cold, cached) = (&outs[0], &outs[1]);
+    for (k, v0) in cold {
+        let v1 = cached.get(k).cloned().unwrap_or(Value::Null);
+        report.evaluations += 1;
+        report.transitions += 2;
+        let label = json!({"family": "system-cell-cache", "query": k});
+        if *v0 != v1 {
+            report.violation("system-cell-cache/verdict-differs", format!("{k}: the node that never set up the system-cell cache answers {v0}, the node that did (as `ckb run` does) answers {v1}"), label.clone());
+        }
+        let name = k.split('/').nth(1).unwrap_or("");
+        let accepted = v0.as_str().map(|s| s.starts_with("accepted")).unwrap_or(false);
+        if let Some(ok) = expect.get(name) {
+            if *ok != accepted {
+                report.violation("system-cell-cache/cold-verdict-unexpected", format!("{k}: the cache-less node answers {v0}, by construction the transaction is {}", if *ok { "valid" } else { "invalid" }), label.clone());
+            }
+        }
+        report.outcomes.insert(fp(&("syscell", v0.to_string())));
+        report.states.insert(fp(&("syscell", k)));
+        report.nontrivial.insert(fp(&("syscell", k)));
+    }
+    report.traces += 2;
+    report.count("system_cell_queries", cold.len() as u64);
+    Ok(())
 }
